@@ -215,7 +215,6 @@ func (w *Watcher) StopWatching(_ context.Context, id channel.ID) error {
 		// Channel could have been closed while were waiting for the mutex locked.
 		return errors.New("channel not registered with the watcher")
 	}
-	close(ch.done)
 
 	if ch.isSubChannel() {
 		latestParentTx := ch.parent.txRetriever.retrieve()
@@ -228,6 +227,9 @@ func (w *Watcher) StopWatching(_ context.Context, id channel.ID) error {
 		return errors.WithMessagef(ErrSubChannelsPresent, "cannot de-register: %d %v", len(ch.subChs), ch.id)
 	}
 
+	// Cancel the event handler only once it is certain that the channel will be
+	// de-registered: a refused request must leave the channel watched.
+	close(ch.done)
 	closePubSubs(ch)
 	w.remove(ch.id)
 	ch.isClosed = true
